@@ -8,6 +8,8 @@ pub fn with_precision(self, precision: usize) -> Rounded<Self>
         // exponent range: the new exponent must be representable (overflow of isize is outside this contract)
         self.repr.exponent as int + ndigits(B as int, self.repr.significand.v()) <= isize::MAX,
         ndigits(B as int, self.repr.significand.v()) <= isize::MAX,
+        // resource limit: exponent overflow is a documented panic (C16), not modelled (digit position of the split in repr_round)
+        pos_room(ndigits(B as int, self.repr.significand.v()) as int),
     ensures
         // C08/C10: ONE correct rounding (mode R) of the exact value to `precision` digits, truthful flag
         round_once(R::md(), B as int, precision, self.repr.significand.v(), self.repr.exponent as int, map_repr(ret)),
